@@ -35,6 +35,7 @@ static int build_mat(int id, tmat_t *T) {
     case 0: n = 4; { const char *P[4] = { "1101", "0110", "1011", "0101" }; for (int i = 0; i < n; i++) for (int j = 0; j < n; j++) pat[i][j] = P[i][j] == '1'; } break;
     case 1: n = 5; for (int i = 0; i < n; i++) { pat[i][i] = 1; pat[i][(i + 1) % n] = 1; pat[(i + 2) % n][i] = 1; } break;
     case 2: n = 3; for (int i = 0; i < n; i++) for (int j = 0; j < n; j++) pat[i][j] = 1; break;
+    case 4: n = 6; for (int i = 0; i < n; i++) for (int j = i; j < n; j++) pat[i][j] = 1; break;      /* upper triangular: many more U entries (15) than L subscripts */
     default: n = 6; for (int i = 0; i < n; i++) { pat[i][i] = 1; if (i + 1 < n) pat[i][i + 1] = pat[i + 1][i] = 1; } pat[0][5] = 1; break;
     }
     for (int i = 0; i < n; i++) for (int j = 0; j < n; j++) D[i][j] = generic_value(i, j, id + 1);
@@ -94,7 +95,8 @@ static const char *site_of(const char *cd) { const char *s = strchr(cd, '@'); re
 /* ------------------------------------------------------------------ families */
 static void judge_outcome(const fc_t *c, const char *fam, int oc, const char *cd, const fc_t *ref_c, unsigned long long ref_hash, int n) {
     char cs[200]; fc_str(c, fam, cs, sizeof cs); char sig[110];
-    if (!strcmp(fam, "lworktight")) fam = "lwork";       /* same fault class, same signatures (the case string keeps the family) */
+    if (!strcmp(fam, "lworktight")) fam = "lwork";
+    if (!strcmp(fam, "retry")) fam = "alloc";          /* single failing request: the signatures of family alloc */       /* same fault class, same signatures (the case string keeps the family) */
     G->runs++; G->judged++;
     note_distinct(hmix(hmix(c->k * 131 + c->lwork, c->mat * 64 + c->drv * 8 + c->P), oc == OC_RETURN ? (unsigned long long)G->info : 1000 + oc));
     switch (oc) {
@@ -177,6 +179,20 @@ int main(int argc, char **argv) {
             if (idx % nsl != isl) continue;
             fc_t cc = c; if (which == 0) cc.fill = f; else if (which == 1) cc.f7 = f; else if (which == 2) cc.f8 = f; else cc.f6 = f;
             int oo = run_child(&cc, timeout, cd, sizeof cd); judge_outcome(&cc, fam, oo, cd, &ref, ref_hash, n); }
+    } else if (!strcmp(fam, "retry")) {
+        /* the recovery path of p?gstrf_MemInit (added after seeded change C09/2 was missed): estimates sp_ienv(7)/(8) that become exactly (or nearly)
+           sufficient AFTER the halving the library applies when the first attempt to allocate ucol/lsub/usub fails, and every single failing request */
+        int m7 = 0, m8 = 0;
+        for (int f = 1; f <= 80 && !m7; f++) { fc_t cc = c; cc.f7 = f; int oo = run_child(&cc, timeout, cd, sizeof cd); if (oo == OC_RETURN && G->info == 0) m7 = f; }
+        for (int f = 1; f <= 80 && !m8; f++) { fc_t cc = c; cc.f8 = f; int oo = run_child(&cc, timeout, cd, sizeof cd); if (oo == OC_RETURN && G->info == 0) m8 = f; }
+        if (!m7 || !m8) { char cs[200]; fc_str(&c, fam, cs, sizeof cs); viol("C14:retry:no-sufficient-estimate", cs, "no estimate up to 80 entries sufficed (sp_ienv(7): %d, sp_ienv(8): %d)", m7, m8); }
+        else { long idx = 0;
+            for (int d7 = 0; d7 < 3; d7++) for (int d8 = 0; d8 < 3; d8++) {
+                fc_t b = c; b.f7 = 2 * m7 + d7; if (b.f7 < T.nnz + d7) b.f7 = T.nnz + d7;  /* the library gives up when the halved estimate falls below nnz(A)/2 */
+                b.f8 = 2 * m8 + d8; int ob = run_child(&b, timeout, cd, sizeof cd); long Kb = (ob == OC_RETURN) ? G->calls : K;
+                for (long k = 1; k <= Kb; k++, idx++) { if (idx % nsl != isl) continue; if (now_s() - t0 > deadline) { complete = 0; break; }
+                    fc_t cc = b; cc.k = k; cc.single = 1; int oo = run_child(&cc, timeout, cd, sizeof cd); judge_outcome(&cc, fam, oo, cd, &ref, ref_hash, n); } }
+        }
     } else if (!strcmp(fam, "lworktight")) {
         /* user workspace with TIGHT estimates: the smallest sufficient sp_ienv(7) and sp_ienv(8) are found first (internal memory), then every
            workspace size in steps of `step` bytes: the window in which the L/U part fits but the per-thread working arrays do not is reached */
